@@ -167,6 +167,23 @@ def run_case(case):  # pylint: disable=too-many-locals,too-many-branches,too-man
             raise Violation(PROP, f'read:stream_and_meta:{path}', 'get_objects_stream_and_meta contents differ')
         if cont.has_objects(list(stored)) != [True] * len(stored):
             raise Violation(PROP, f'has:{path}', 'has_objects false for a stored key')
+        # the same bulk reads through the other internal look-up strategy (ordered full scan of the index), selected here by
+        # lowering the class threshold instead of asking for > 9500 keys
+        class FullScan(Container):  # pylint: disable=too-few-public-methods
+            _MAX_CHUNK_ITERATE_LENGTH = 0
+
+        other = FullScan(os.path.join(root, 'c'))
+        try:
+            bulk = other.get_objects_content(list(stored))
+            for k, blob in stored.items():
+                if bulk.get(k) != blob:
+                    raise Violation(PROP, f'read:get_objects_content-fullscan:{path}', f'bulk read (full-scan strategy) of {k[:10]} gives {short(bulk.get(k) or b"")} ({len(bulk.get(k) or b"")} bytes, expected {len(blob)})')
+            with other.get_objects_stream_and_meta(list(stored)) as triplets:
+                for k, stream, smeta in triplets:
+                    if stream.read() != stored[k] or smeta.size != len(stored[k]):
+                        raise Violation(PROP, f'read:stream_and_meta-fullscan:{path}', f'bulk stream (full-scan strategy) of {k[:10]} differs')
+        finally:
+            other.close()
         compressed = bool(meta.pack_compressed)
     finally:
         cont.close()
